@@ -91,7 +91,9 @@ def unk_table():
 
 def evaluate(items, name="c14fixvenom", shard=4, timeout=900):
     unk = unk_table()
-    exprs = [f"let f : RangeFix.func := {it['fix']} in let Ec : list aenv := {it['E']} in\n"
+    import re
+    q = re.compile(r"\bO(Lit|Var|Lab)\b")
+    exprs = [f"let f : RangeFix.func := {q.sub(lambda m: 'RangeFix.O' + m.group(1), it['fix'])} in let Ec : list aenv := {it['E']} in\n"
              f"tie_result {unk} ({it['venom']}) f Ec" for it in items]
     return coqrun.eval_zlists(IMPORTS, exprs, name, shard=shard, timeout=timeout)
 
@@ -181,6 +183,7 @@ def part_fixvenom(ctx, texts=None, deps=None):
                                   "re-parsed snapshot of " + it["name"] + " is not a post-fixpoint (check = false)",
                                   {"theorem": "venom_ranges_sound (check (proj vf) E = false)", "function": it["text"][:5000]})
     ctx.corr["range_fixvenom"] = stats
+    ctx.log("fixvenom " + " ".join(f"{k}={v}" for k, v in stats.items()))
     ctx.trusted.append("coq/C14/FixVenom.v `proj`: tied per run to both exporters (projection of the Venom.v export equals the "
                        "RangeFix.v export up to alloca address / resolved offset / literal reduction)")
     ctx.assumptions.append("venom_ranges_sound: environment, oracle results and initial store hold words/bytes (env_ok, oracle_ok, "
